@@ -3,3 +3,5 @@ pub mod json;
 pub mod emit;
 pub mod yaml_corpus;
 pub mod utf8;
+pub mod dsv;
+pub mod yamlpos;
